@@ -1054,7 +1054,7 @@ class System:
         self.projectname = 'my project'
 
         self.parse_errors: Dict[str, Set[str]] = defaultdict(set)
-        self.reported_errors: Set[Tuple[str, str, str]] = set()
+        self.reported_errors: Set[Tuple[str, Documentable, str]] = set()
         """(section, full name, phase) triples L{epydoc2stan.reportErrors} has reported already."""
         """
         Dict from the name of the thing we're rendering (C{section}) to the FullNames of objects for which the rendereable elements failed to parse.
